@@ -523,7 +523,9 @@ func (f *FaceModule) destroy(interest *spec.Interest, pitToken []byte, inFace ui
 		core.LogInfo(f, "Ignoring attempt to delete non-existent face with FaceID=", *params.FaceId)
 	}
 
-	response = makeControlResponse(200, "OK", params.ToDict())
+	// Echo only the FaceId: params.ToDict() holds nested dictionaries (e.g. for a Strategy field)
+	// that makeControlResponse cannot convert back, which left response nil.
+	response = makeControlResponse(200, "OK", map[string]any{"FaceId": *params.FaceId})
 	f.manager.sendResponse(response, interest, pitToken, inFace)
 }
 
